@@ -149,7 +149,7 @@ def _lin(expr):
 
 
 def _is_int(e):
-  return e is None or bool(e.is_integer)
+  return e is None or bool(e.is_integer) or isinstance(e, (sp.floor, trunc, cell, dsum, plen))
 
 
 class Facts:
@@ -350,6 +350,10 @@ class Facts:
       s &= {'neg', 'zero'}
     if ('ne', sp.expand(e)) in self.items:
       s -= {'zero'}
+    if isinstance(e, sp.Add) and s != {'pos'} and s != {'neg'} and s != {'zero'}:
+      fe = sp.factor(e)
+      if isinstance(fe, sp.Mul):
+        s &= self.sign(fe)
     if isinstance(e, sp.Add):
       parts = [self.sign(t) for t in e.args]
       if all(p <= {'pos', 'zero'} for p in parts):
@@ -964,7 +968,7 @@ class Interp:
     fname = f.name.split(':', 1)[1] if isinstance(f, sp.Symbol) and f.name.startswith('global:') else None
     if fname == 'int' and len(args) == 1:
       v = self.num(args[0])
-      return v if v.is_integer else trunc(v)
+      return v if (v.is_integer or isinstance(v, sp.floor)) else trunc(v)
     if fname == 'float' and len(args) == 1:
       return self.num(args[0])
     if fname == 'abs' and len(args) == 1 and isinstance(args[0], sp.Basic):
